@@ -793,6 +793,7 @@ class Binding:
     unbound_extra: List[str] = field(default_factory=list)   # keywords that match no parameter
     via: Dict[str, str] = field(default_factory=dict)        # how each parameter was bound
     complete: bool = True                                    # False if an unknown *args/**kwargs was involved
+    duplicates: List[tuple] = field(default_factory=list)    # (param, positional actual) also given by keyword
 
 
 def bind_call(ev: Evaluator, rec: CallRecord, callee: Func, skip_self: Optional[bool] = None,
@@ -835,6 +836,9 @@ def bind_call(ev: Evaluator, rec: CallRecord, callee: Func, skip_self: Optional[
             if k.arg is not None:
                 v = ev.eval(k.value, env)
                 if k.arg in params:
+                    if b.via.get(k.arg) == "positional":
+                        # f(a, b, p=...) where b already landed on p: TypeError "multiple values" at run time
+                        b.duplicates.append((k.arg, b.exprs.get(k.arg)))
                     b.values[k.arg] = v
                     b.exprs[k.arg] = k.value
                     b.via[k.arg] = "keyword"
